@@ -577,6 +577,9 @@ func (r *runner) mainStream(nprog int) int {
 		if !fast && rng.Chance(30) {
 			p = collidePackages(rng, p, out.Count)
 		}
+		if rng.Chance(40) {
+			p = identInts(rng, p, out.Count)
+		}
 		p.Stats(out.Count)
 		if fast {
 			plan = append(plan, plannedUnit{p, "fastgo", nil, true, fmt.Sprintf("prog%d", i)})
